@@ -97,6 +97,10 @@ def gen_scenario(rng, pid, k):
         kind = rng.choice(['alloc_put', 'alloc_put', 'alloc_post', 'reshape'])
         i = len(reqs)
         cc = cons(c, gen, allocs, v)
+        if v >= 38 and rng.random() < 0.5:
+            cc['type'] = 2
+        if rng.random() < 0.3:
+            cc['proj'], cc['user'] = rng.choice([1, 2]), rng.choice([1, 2])
         if kind == 'alloc_put':
             reqs.append(('alloc_put', v, cc))
         elif kind == 'alloc_post':
@@ -150,6 +154,12 @@ FIXED = {
          [(0, 'cons', 5, None), (1, 'cons', 5, None)]),
         ('null-put-vs-gen0-put', [('alloc_put', 39, cons(5, None, [(1, [(0, 2)])])), ('alloc_put', 39, cons(5, 0, [(2, [(0, 3)])]))],
          [(0, 'cons', 5, None), (1, 'cons', 5, 0)]),
+        ('racing-create-different-types', [('alloc_put', 38, dict(cons(5, None, [(1, [(0, 1)])]), type=1)),
+                                           ('alloc_put', 38, dict(cons(5, None, [(1, [(0, 1)])]), type=2, proj=2))],
+         [(0, 'cons', 5, None), (1, 'cons', 5, None)]),
+        ('racing-create-older-version', [('alloc_put', 38, dict(cons(5, None, [(1, [(0, 1)])]), type=2)),
+                                         ('alloc_put', 30, cons(5, None, [(1, [(0, 1)])], 30))],
+         [(0, 'cons', 5, None), (1, 'cons', 5, None)]),
     ],
     'C07': [
         ('capacity-race', [('alloc_put', 39, cons(4, None, [(1, [(0, 5)])])), ('alloc_put', 39, cons(5, None, [(1, [(0, 5)]), (2, [(0, 1)])]))], []),
